@@ -403,8 +403,8 @@ def replay(payload):
     return st == "crash" or (st == "ok" and r is not None)
 
 
-def explore(rep, seed, tier, tag, cflags=(), budget=60):
-    nmods = 12 if tier == "quick" else 32
+def explore(rep, seed, tier, tag, cflags=(), budget=60, nmods=None, prop=None):
+    nmods = nmods or (12 if tier == "quick" else 32)
     nfuncs = 30
     mods, errors = build_modules(seed, nmods, nfuncs, tag, cflags)
     for e in errors:
@@ -417,7 +417,7 @@ def explore(rep, seed, tier, tag, cflags=(), budget=60):
     deadline = time.time() + budget
     total = len(mods) * nfuncs
     viol = []
-    results = core.run_forked(one_run, PROP, seed, range(total), cfg, deadline=deadline)
+    results = core.run_forked(one_run, prop or PROP, seed, range(total), cfg, deadline=deadline)
     for i, r in results:
         if "crash" in r:
             viol.append((i, {"klass": "crash", "detail": {"signal": r["crash"]}, "module": mods[i % len(mods)]["name"],
